@@ -3,12 +3,18 @@ import KafVerif.Prelude.Driver
 /-! Line-protocol driver for the processor loop model (C33).
 
 ```
-case <variant> <mem|noop> [stats=next|footer]   -> case
+case <variant> <mem|noop> [stats=next|footer] [lister=s3|manifest|stale]   -> case
 seg <tp> <o1,o2,…|->              -> seg
 cycle <listFail 0|1> <claim bits|-> <faults: n l d s c f<o1+o2…>, comma separated|->
                                    -> cycle lease=<tp|-> wrote=<tp:o,…|-> cp=<tp=v,…|->
 lost                               -> lost
 ```
+With `lister=s3|manifest|stale` the listing of a tick is computed by the model of the real lister
+(`listCompleted` / `listManifest` of Model/Processor.lean) over a bucket with one completed object pair
+per `seg` line (base offset = first offset); the `cycle` line takes a 5th field `s3=<L|m|p<i>>+…`
+(requests of this tick's `ListCompleted` that fail: ListObjectsV2, manifest GetObject, footer probe
+of segment i), the per-segment faults are indexed by `seg` line, and the answer ends with
+` listed=<seg indices in listing order|-|err>`.
 -/
 open KafVerif KafVerif.Processor
 
@@ -16,6 +22,9 @@ structure DS where
   kind : StoreKind := .mem
   segs : List Seg := []
   st : St := init
+  lister : Nat := 0     -- 0 scripted listing, 1 real s3Lister, 2 real manifestLister (fallback s3Lister),
+                        -- 3 manifestLister over a manifest written at the first tick and never refreshed
+  manN : Option Nat := none  -- lister 3: how many `seg` lines the manifest names
 
 def parseOffs (s : String) : List Nat :=
   if s = "-" then [] else (s.splitOn ",").filterMap (·.toNat?)
@@ -41,27 +50,59 @@ def sortNat (l : List Nat) : List Nat := l.foldr insertSorted []
 
 def showOpt (l : List String) : String := if l.isEmpty then "-" else joinWith "," l
 
+/-- one polling cycle; `s3` = the S3 fault items of the tick (real-lister cases) -/
+def cycleLine (d : DS) (lf cl fs : String) (s3 : List String) : DS × String :=
+  let faults := if fs = "-" then [] else (fs.splitOn ",").map parseFault
+  let claimFail : List Bool := if cl = "-" then [] else cl.toList.map (· = '1')
+  -- this tick's listing: `none` = ListCompleted failed
+  let objs : List Obj := d.segs.map fun sg => ⟨sg, sg.offs.headD 0, true⟩
+  let lo : ListOracle := {
+    listErr := s3.contains "L",
+    probeErr := (List.range d.segs.length).map fun i => s3.contains s!"p{i}",
+    manifestErr := s3.contains "m" }
+  let manN := d.manN.getD d.segs.length
+  let ls : Option (List Seg) :=
+    if lf = "1" then none
+    else match d.lister with
+      | 0 => some d.segs
+      | 1 => listCompleted objs lo
+      | 2 => listManifest objs objs lo
+      | _ => listManifest (objs.take manN) objs lo
+  -- the per-segment faults are written per `seg` line; the loop meets them in listing order
+  let idxs : List Nat := match ls with
+    | some l => l.map fun sg => d.segs.findIdx (· == sg)
+    | none => []
+  let o : Oracle := {
+    listFail := false,
+    claimFail := claimFail,
+    faults := if d.lister = 0 then faults else idxs.map fun i => faults.getD i .none }
+  let s' := cycleWith ls d.kind o d.st
+  let wrote := (s'.sink.drop d.st.sink.length).map fun p => s!"{p.1}:{p.2}"
+  let tps := sortNat (dedup (d.segs.map (·.tp)))
+  let cps := tps.map fun tp => s!"{tp}={load d.kind s' tp}"
+  let lease := match s'.lease with | some tp => toString tp | none => "-"
+  let listed := if d.lister = 0 then "" else
+    match ls with
+    | some _ => s!" listed={showOpt (idxs.map toString)}"
+    | none => " listed=err"
+  ({ d with st := s', manN := some manN }, s!"cycle lease={lease} wrote={showOpt wrote} cp={showOpt cps}{listed}")
+
 def stepLine (d : DS) (ws : List String) : DS × String :=
   match ws with
-  | ["case", _, k] => ({ kind := if k = "noop" then .noop else .mem, segs := [], st := init }, "case")
-  -- the optional 4th field names the offset statistics the fake Lister attaches to the listing
-  -- (sql: MinOffset/MaxOffset); the loop under test does not read them, so neither does the model
-  | ["case", _, k, _] => ({ kind := if k = "noop" then .noop else .mem, segs := [], st := init }, "case")
+  -- options after the store kind: `stats=` names the offset statistics the fake Lister attaches to the
+  -- listing (sql: MinOffset/MaxOffset); the loop under test does not read them, so neither does the
+  -- model.  `lister=` selects the model of the real lister.
+  | "case" :: _ :: k :: opts =>
+    let lister := if opts.contains "lister=s3" then 1 else if opts.contains "lister=manifest" then 2
+      else if opts.contains "lister=stale" then 3 else 0
+    ({ kind := if k = "noop" then .noop else .mem, segs := [], st := init, lister := lister }, "case")
   | ["seg", tp, offs] =>
     match tp.toNat? with
     | some tp => ({ d with segs := d.segs ++ [⟨tp, parseOffs offs⟩] }, "seg")
     | none => (d, "bad-op")
-  | ["cycle", lf, cl, fs] =>
-    let o : Oracle := {
-      listFail := lf = "1",
-      claimFail := if cl = "-" then [] else cl.toList.map (· = '1'),
-      faults := if fs = "-" then [] else (fs.splitOn ",").map parseFault }
-    let s' := cycle d.kind d.segs o d.st
-    let wrote := (s'.sink.drop d.st.sink.length).map fun p => s!"{p.1}:{p.2}"
-    let tps := sortNat (dedup (d.segs.map (·.tp)))
-    let cps := tps.map fun tp => s!"{tp}={load d.kind s' tp}"
-    let lease := match s'.lease with | some tp => toString tp | none => "-"
-    ({ d with st := s' }, s!"cycle lease={lease} wrote={showOpt wrote} cp={showOpt cps}")
+  | ["cycle", lf, cl, fs] => cycleLine d lf cl fs []
+  | ["cycle", lf, cl, fs, s3] =>
+    cycleLine d lf cl fs (if s3.startsWith "s3=" then (String.ofList (s3.toList.drop 3)).splitOn "+" else [])
   | ["lost"] => ({ d with st := step d.kind d.segs d.st .leaseLost }, "lost")
   | _ => (d, "bad-op")
 
